@@ -184,4 +184,54 @@ def checkSeq {α} [DecidableEq α] (root : String) (steps : List (String × α))
     (o : SeqRes α) : Bool :=
   decide (o = seqRef root steps op)
 
+/-! ### the model's own observation (what the checker theorem is about) -/
+
+/-- pickling an object: a TType goes through `__getstate__` / `__setstate__`; a Path pickles its
+    `__dict__`, i.e. its `path_t` -/
+def pickleObj {L} (F : Facts) : Obj L → Option (Obj L)
+  | .tobj r s => ((getstate F.getstateRoots r s).bind (setstate F.setstateRoots)).map
+      (fun rs => Obj.tobj rs.1 rs.2)
+  | .pobj r s => ((getstate F.getstateRoots r s).bind (setstate F.setstateRoots)).map
+      (fun rs => Obj.pobj rs.1 rs.2)
+
+def observeRepr {L} [BEq (Step L)] (F : Facts) (render : List (Tok L) → String) (x : Obj L) :
+    ReprObs L :=
+  let ev := parseObj (reprObj F.fmt x)
+  { text := render (reprObj F.fmt x)
+    evalOk := ev
+    text2 := ev.map (fun y => render (reprObj F.fmt y))
+    pickled := pickleObj F x
+    -- the model has no notion of evaluation beyond the steps: same steps, same evaluation
+    sameEval := match ev with
+      | some y => y.root == x.root && y.steps == normSteps x.steps
+      | none => false }
+
+/-- the objects the property is about: T expressions rooted at T, S or A; Paths rooted at T -/
+def validObj {L} : Obj L → Bool
+  | .tobj r s => ["T", "S", "A"].contains r && validT s
+  | .pobj r s => r == "T" && validP s
+
+/-! ### `glom(t, Path(p, q))` against `glom(glom(t, p), q)` -/
+
+/-- outcome of one evaluation, as C01 observes it -/
+inductive EvalObs (V : Type) where
+  | ok (v : V)
+  | pae (idx : Nat) (excCls : String)
+  | other (cls : String)
+  deriving DecidableEq, Repr
+
+/-- the two-stage evaluation: stage 1 failed, or stage 2 ended with an outcome -/
+inductive Nested (V : Type) where
+  | first (o : EvalObs V)        -- glom(t, p) failed with `o`
+  | second (o : EvalObs V)       -- glom(glom(t, p), q) ended with `o`
+  deriving DecidableEq, Repr
+
+/-- The concatenation law on observations: the joined path gives the same object, the same
+    failure inside `p`, or the failure inside `q` numbered from the start of the joined path. -/
+def checkConcat {V} [DecidableEq V] (plen : Nat) (joined : EvalObs V) (nested : Nested V) : Bool :=
+  match nested with
+  | .first o => decide (joined = o)
+  | .second (.pae k c) => decide (joined = .pae (k + plen) c)
+  | .second o => decide (joined = o)
+
 end Glom.C18
